@@ -104,6 +104,10 @@ def check_output(part, outputs, raw, case, sig, conn=None):
     # the values with a grammar of their own: envelope and body (RFC 3501 section 9)
     try:
         for resp in imapresp.parse(data):
+            p = imapresp.response_problem(resp)
+            if p:
+                part.violation('monitor', f'{sig}: an untagged response does not follow its grammar: {p[:300]}', case, signature='structure:response')
+                return False
             f = imapresp.fetch_items(resp)
             if not f:
                 continue
